@@ -13,6 +13,13 @@ macro_rules! dispatch {
     ($id:expr, $f:ident, $($arg:expr),*) => {
         match $id {
             "C01" => $f::<c01::C01>($($arg),*),
+            "C02" => $f::<c02::C02>($($arg),*),
+            "C03" => $f::<c03::C03>($($arg),*),
+            "C04" => $f::<c04::C04>($($arg),*),
+            "C07" => $f::<c07::C07>($($arg),*),
+            "C08" => $f::<c08::C08>($($arg),*),
+            "C09" => $f::<c09::C09>($($arg),*),
+            "C10" => $f::<c10::C10>($($arg),*),
             other => {
                 eprintln!("unknown property {other}");
                 2
